@@ -1410,6 +1410,20 @@ impl<'w> Gen<'w> {
             let id = self.fresh_id();
             self.probe(&x(&hs, vec![coin(5, JUNO_DENOM)], MMsg::RC { sender: RawAddr::valid(victim.as_str()), amount: 5, inner: Inner::CB { id } }));
             self.probe(&x(&hs, vec![coin(5, JUNO_DENOM)], MMsg::RN { sender: RawAddr::valid(victim.as_str()), token_id: "t000".into(), inner: Inner::CB { id } }));
+            // every hook kind with coins, aimed at records that exist (the hook alone would succeed) and at fresh ids
+            let mut inners: Vec<(String, Inner)> = vec![(victim.clone(), Inner::CL { id: id + 1, create: Create { ask: RawGBal::natives(vec![coin(3, "uatom")]), whitelist: None } })];
+            if let Some(((o, bid), _)) = bs.first() {
+                inners.push((o.to_string(), Inner::AB { id: *bid }));
+            }
+            if let Some((_, l)) = ls.iter().find(|p| p.1.status == Status::BeingPrepared) {
+                inners.push((l.creator.to_string(), Inner::AL { id: l.id }));
+            }
+            for (who, inner) in inners {
+                for f in [vec![coin(5, JUNO_DENOM)], vec![coin(1, JUNO_DENOM), coin(1, USDC_DENOM)]] {
+                    self.probe(&x(&hs, f.clone(), MMsg::RC { sender: RawAddr::valid(who.as_str()), amount: 5, inner: inner.clone() }));
+                    self.probe(&x(&hs, f, MMsg::RN { sender: RawAddr::valid(who.as_str()), token_id: "t000".into(), inner: inner.clone() }));
+                }
+            }
         }
     }
 
